@@ -28,6 +28,7 @@ LEVEL = {
     "C20": ("proof", "Finite theorem C20_config over coq/gen/GenConfig.v, regenerated on every run from fresh interpreters with a masking import hook (8 masks), against the hand model of the if/elif chains; plus one accepted / one rejected checked call per available library.", "DESIGN.md 7 C20"),
 }
 TECH = {p: "Coq 8.16 proof about a hand-written executable model + extracted-model/implementation correspondence (differential execution)" for p in LEVEL}
+TECH["C05"] = TECH["C18"] = "Coq 8.16 proof about a hand-written executable model + source-to-Coq translation of the operator tables and formulas (GenSrc.v, SourceTie.v) re-proved on every run + extracted-model/implementation correspondence (differential execution)"
 TECH["C13"] = "Coq 8.16 theorems over the configuration model + exhaustive fresh-interpreter correspondence"
 TECH["C15"] = "Coq 8.16 proof about a hand-written executable model (structural relabelling theorem) + finite theorem (vm_compute) over tables regenerated from the running code + extracted-model/implementation correspondence"
 TECH["C04"] = TECH["C20"] = "Coq 8.16 finite theorem (vm_compute) over tables regenerated from the running code + exhaustive correspondence"
